@@ -47,6 +47,11 @@ def main():
         for c in HARNESS_CRATES:
             if os.path.isdir(os.path.join(vlib.HARNESS, c)):
                 step("harness " + c, lambda c=c: vlib.build_harness(c))
+    if want("warm"):
+        # warm lazily-built artefacts (C19's generated crates and its nightly rustdoc JSON build); verdicts are ignored here
+        def warm():
+            vlib.run([os.path.join(vlib.VERIF, "check"), "C19", "--tier", "quick"], cwd=vlib.VERIF, env=vlib.base_env(), timeout=3600)
+        step("warm C19 caches", warm)
     vlib.log("[setup] all done")
 
 
